@@ -5,6 +5,7 @@ export GOFLAGS=-mod=mod GOPROXY=off GOSUMDB=off GOTOOLCHAIN=local
 java -version >/dev/null 2>&1
 test -f /opt/veriftools/tla/tla2tools.jar
 go version >/dev/null
+command -v tlapm >/dev/null   # TLA+ proof system (C19: MariaGTID_proofs.tla)
 python3 - <<'PY'
 import sys
 sys.path.insert(0, "/verif/lib")
